@@ -9,6 +9,7 @@ All theorems hold for every lawful `heapq` (`H.Lawful`).
 -/
 import Asynkit.Lemmas.C10
 import Asynkit.Model.Sched
+import Asynkit.Props.C08
 
 namespace Asynkit.C10
 open Asynkit.PosPQ
@@ -41,7 +42,7 @@ inductive Reach (H : HeapLib (Entry PV)) : PosPQ → Prop
 /-- the heap invariant holds in every reachable state -/
 theorem reach_isHeap (hH : H.Lawful elt) (s : PosPQ) (h : Reach H s) : IsHeap elt s.q.pq := by
   induction h with
-  | init f => exact isHeap_nil _
+  | init f => exact isHeap_nil
   | append x p draw _ ih => exact isHeap_appendPri hH _ x p draw ih
   | insert pos x draw _ ih => exact isHeap_insert hH _ pos x draw ih
   | popleft draw x s' _ hp ih => exact isHeap_popleft hH _ draw ih x s' hp
@@ -181,6 +182,26 @@ theorem equal_pri_like_plain_loop (c : Rat) (s : PosPQ) (h : EqualPri c s.q.pq) 
     rcases List.mem_cons.mp this with rfl | hm
     · exact ⟨rfl, rfl⟩
     · exact h e hm hc
+
+/-- **with all priorities equal the priority loop schedules exactly like the plain scheduling
+    loop, whatever the history and whatever the boosting**: run any admissible history of queue
+    operations (`call_soon`/`queue_insert` at priority 0, `queue_insert_pos`, `call_pos`,
+    `queue_find(remove)`, `queue_remove`, the loop's `popleft`) on the priority queue — any lawful
+    heapq, any boost factor, any random draws — and on the deque of `SchedulingSelectorEventLoop`:
+    the queues hold the same handles in the same order after every step, and the same handles
+    have been run in the same order. -/
+theorem equal_pri_like_plain_loop_history (hH : H.Lawful elt) (draw : Nat → Rat) (factor : Rat)
+    (evs : List Sched.QEv)
+    (ha : C08.AllAdmissible (Sched.posOps H draw) Sched.absP { q := ({ factor := factor } : PosPQ) } evs) :
+    Sched.absP (C08.runEvs (Sched.posOps H draw) { q := ({ factor := factor } : PosPQ) } evs).q
+      = (C08.runEvs Sched.listOps { q := ([] : List Nat) } evs).q ∧
+    (C08.runEvs (Sched.posOps H draw) { q := ({ factor := factor } : PosPQ) } evs).out
+      = (C08.runEvs Sched.listOps { q := ([] : List Nat) } evs).out := by
+  have h := C08.listLike_simulation (O2 := Sched.listOps) (abs2 := id) (Inv2 := fun q => q.Nodup)
+    (C08.listLike_priority_loop hH draw) (C08.listLike_deque_loops.mono (fun _ _ => trivial))
+    ({ factor := factor } : PosPQ) ([] : List Nat) (C08.priority_loop_init factor).1 List.nodup_nil
+    (C08.priority_loop_init factor).2 rfl evs ha
+  exact h
 
 /-! ### the documented priority domain -/
 
